@@ -4,6 +4,7 @@
 import ZwVerif.Props.C01
 import ZwVerif.Props.C01Merge
 import ZwVerif.Props.C01Or
+import ZwVerif.Props.C01Pipe
 import ZwVerif.Props.C02
 import ZwVerif.Props.C03
 import ZwVerif.Props.C04
